@@ -273,6 +273,54 @@ def run_two_calls(job):
             "case": {"two_calls": kind}}
 
 
+def run_project(job):
+    """cminx_gen_rst() called during a real configure run (cmake -S/-B, project() with no languages), from the top-level
+    project, from a plain sub-directory and from a sub-directory that declares a project of its own"""
+    inp, where = job
+    box = fsbox.Box("c19p")
+    msgs = []
+    try:
+        paths = build(box)
+        work = box.path("work")
+        target = os.path.join(work, paths[inp])
+        wrapper = box.path("cminx-wrapper.sh")
+        with open(wrapper, "w") as f:
+            f.write(f"#!/bin/sh\nexec {common.PYTHON} -c \"{CLI % common.REPO_SRC}\" \"$@\"\n")
+        os.chmod(wrapper, os.stat(wrapper).st_mode | stat.S_IEXEC)
+        env = dict(os.environ, CMINXDIR=box.path("cfg"), HOME=box.path("home"), XDG_CONFIG_HOME=box.path("home", ".config"),
+                   PWD=box.path("stale-pwd"))
+        out_cm, out_cli = os.path.join(work, "out-cmake"), os.path.join(work, "out-cli")
+        call = (f'set(CMINX_EXECUTABLE "{wrapper}")\ninclude("{os.path.join(common.REPO_ROOT, "cmake", "cminx.cmake")}")\n'
+                f'cminx_gen_rst("{target}" "{out_cm}")\nfile(WRITE "{box.path("reached.txt")}" "after the call")\n')
+        top = "cmake_minimum_required(VERSION 3.21)\nproject(top_project NONE)\n"
+        if where == "top":
+            box.build({"src/CMakeLists.txt": top + call}, base="")
+        elif where == "subdirectory":
+            box.build({"src/CMakeLists.txt": top + "add_subdirectory(docs)\n", "src/docs/CMakeLists.txt": call}, base="")
+        else:
+            box.build({"src/CMakeLists.txt": top + "add_subdirectory(vendored)\n",
+                       "src/vendored/CMakeLists.txt": "cmake_minimum_required(VERSION 3.21)\nproject(vendored_project NONE)\n" + call}, base="")
+        pc = subprocess.run(["cmake", "-S", box.path("src"), "-B", box.path("bld")], cwd=work, env=env, capture_output=True, text=True)
+        isdir = os.path.isdir(target)
+        pd = subprocess.run([common.PYTHON, "-c", CLI % common.REPO_SRC, target] + (["-r"] if isdir else []) + ["-o", out_cli],
+                            cwd=work, env=env, capture_output=True, text=True)
+        fail_direct, fail_cmake, reached = pd.returncode != 0, pc.returncode != 0, os.path.exists(box.path("reached.txt"))
+        if fail_direct != fail_cmake:
+            msgs.append(f"status: the command line {'fails' if fail_direct else 'succeeds'} but the configure run {'fails' if fail_cmake else 'succeeds'} "
+                        f"(call from: {where}; cmake said {pc.stderr[-160:]!r})")
+        if fail_direct and reached:
+            msgs.append(f"status: CMinx failed but the configure step went on after cminx_gen_rst() (call from: {where})")
+        t_cm = box.files("work/out-cmake") if os.path.isdir(out_cm) else {}
+        t_cli = box.files("work/out-cli") if os.path.isdir(out_cli) else {}
+        if t_cm != t_cli:
+            msgs.append(f"tree: output of cminx_gen_rst during a configure run differs from the direct run (call from: {where})")
+    finally:
+        box.cleanup()
+    msgs = [m.replace(box.root, "<box>") for m in msgs]
+    return {"viol": msgs[:3], "obs": common.digest([job, msgs]), "n": 2, "nt": common.digest(job), "cls": msgs[0].split(":")[0] + " project" if msgs else None,
+            "case": {"project": list(job)}}
+
+
 def run(ctx):
     quick = ctx.tier == "quick"
     singles = [[e] if e != "none" else [] for e in EXTRAS]
@@ -294,6 +342,8 @@ def run(ctx):
     seq = [(inp, e1, e2, edit) for inp in ("file", "flat", "nested")
            for e1, e2, edit in (([], [], "content"), ([], ["p"], "none"), (["p"], [], "content"), ([], [], "break"))]
     ctx.sweep(run_sequence, seq, space="two calls on one output directory with an edit in between", selftest=0, chunk=1, isolate=False)
+    pj = [(inp, where) for inp in ("flat", "missing", "baddir", "badfile", "file") for where in ("top", "subdirectory", "subproject")]
+    ctx.sweep(run_project, pj, space="calls during a configure run (top level, sub-directory, sub-project)", selftest=0, chunk=1, isolate=False)
     ctx.sweep(run_two_calls, ["punctuation-files", "punctuation-dirs", "rewrite", "rewrite-broken"],
               space="two calls in one CMake run", selftest=0, chunk=1, isolate=False)
     ctx.assumptions += ["empty-string extra arguments are not generated (CMake list expansion drops them by design)",
@@ -302,6 +352,8 @@ def run(ctx):
 
 
 def replay(case):
+    if isinstance(case, dict) and "project" in case:
+        return run_project(tuple(case["project"]))["viol"]
     if isinstance(case, dict) and "two_calls" in case:
         return run_two_calls(case["two_calls"])["viol"]
     if len(case) == 4:
